@@ -301,6 +301,8 @@ def fine_rate(rng, positive=False):
     u = rng.random()
     if u < 0.08:
         r = Fraction(0)
+    elif u < 0.14:        # tiny but non-zero rates (daily / continuous compounding): NOT rate 0
+        r = Fraction(rng.choice([-1, 1, 1]) * rng.randint(1, 99), 10 ** rng.choice([6, 7, 8]))
     elif u < 0.60:
         r = Fraction(rng.randint(1, 5000), 10000)
     elif u < 0.75:
